@@ -80,7 +80,8 @@ func TestCheck(t *testing.T) {
 		r.Require(r.Counter("allocate_reconfigurations") >= 100 && r.Counter("count_det_reconfigurations") >= 50, "too few reconfiguration steps")
 		r.Require(r.Counter("rt_acquire_replies") >= 500, "the count-strategy workers hardly ever reached the stub server")
 		r.Require(r.Counter("rt_admissions") >= 2000, "too few admissions in the real-time phase")
-		r.Require(r.Counter("hb_outages_reached_not_ready") >= int64(r.N(3, 16)) && r.Counter("hb_recoveries_observed") >= int64(r.N(3, 16)), "too few outage/recovery cycles of the real client set were observed")
+		r.Require(r.Counter("hb_outages_reached_not_ready") >= int64(r.N(3, 12)) && r.Counter("hb_recoveries_observed") >= int64(r.N(3, 12)) &&
+			r.Counter("hb_reshard_to_dead_reached_not_ready") >= int64(r.N(1, 3)) && r.Counter("hb_reshard_to_healthy_quota_observed") >= int64(r.N(1, 3)), "too few outage/recovery cycles of the real client set were observed")
 	})
 }
 
